@@ -31,13 +31,7 @@ def ring_index(buf: T.Term, seq: T.Term) -> T.Term:
     return T.mk_call("%", [seq, ("call", "get_buffer_size", (buf,), (), None)])
 
 
-def run(chk: Check, model):
-    chk.rule("C08.map", "index-map agreement (A3): the writer update_output stores at seq % size(buffer); every read of an output buffer by sequence "
-                        "number applies the same map with the size of the same buffer; buffer, window and producer refer to the same node")
-    chk.rule("C08.writers", "who-may-write: output buffers are written only by update_output via replace_buffer, at the slot's own sequence number")
-    chk.rule("C08.sizes", "admissibility (A6): a user buffer size smaller than the computed minimum is rejected; the allocated size is "
-                          "max(sizes) + extra_padding (or max(1, extra_padding)); buffers are filled with the producer's init_output")
-    cv = CompiledView(model)
+def rule_map(chk: Check, model, cv: CompiledView, rid: str):
     # ---------------------------------------------------------------- writer
     f_uo = model.func("partition_runner.update_output")
     chk.used(f_uo.qualname)
@@ -51,15 +45,15 @@ def run(chk: Check, model):
         idx = at[2] if ok else None
         ok = ok and idx[0] == "call" and idx[1] == "%" and idx[2][0] == S("seq")
         size_inl = idx[2][1] if ok else None
-    chk.add("C08.map", "writer: update_output", bool(ok), f"update_output returns {T.show(ret)[:200]}, expected buffer.at[seq % size].set(output)", chk.loc(f_uo))
+    chk.add(rid, "writer: update_output", bool(ok), f"update_output returns {T.show(ret)[:200]}, expected buffer.at[seq % size].set(output)", chk.loc(f_uo))
     # size(buffer) is the leading dimension of the buffer's leaves
     f_sz = model.func("partition_runner.get_buffer_size")
     ev = SymEval(model)
     sz = ev.run_function(f_sz).ret
     leaves = T.mk_call("jax.tree_util.tree_leaves", [S("buffer")])
     want_sz = T.mk_ite(T.lt(T.ZERO, T.mk_call("len", [leaves])), T.mk_index(T.mk_attr(T.mk_index(leaves, T.ZERO), "shape"), T.ZERO), T.ONE)
-    chk.add("C08.map", "size: get_buffer_size", sz == want_sz, f"get_buffer_size returns {T.show(sz)[:200]}, expected leaves[0].shape[0] (1 for an empty tree)", chk.loc(f_sz))
-    chk.add("C08.map", "writer uses get_buffer_size of the same buffer", size_inl is not None and size_inl == sz, "update_output does not take the modulus by get_buffer_size(buffer)", chk.loc(f_uo))
+    chk.add(rid, "size: get_buffer_size", sz == want_sz, f"get_buffer_size returns {T.show(sz)[:200]}, expected leaves[0].shape[0] (1 for an empty tree)", chk.loc(f_sz))
+    chk.add(rid, "writer uses get_buffer_size of the same buffer", size_inl is not None and size_inl == sz, "update_output does not take the modulus by get_buffer_size(buffer)", chk.loc(f_uo))
 
     # ---------------------------------------------------------------- readers
     readers = []
@@ -74,7 +68,7 @@ def run(chk: Check, model):
     collect([e for e in cv.run_S.events if e.func == cv.fi("_run_S").qualname], cv.fi("_run_S"), "_run_S")
     f_rs = model.func("graph.Graph.run_supervisor")
     collect(cv.run_supervisor.events, f_rs, "Graph.run_supervisor")
-    chk.floor("C08.map", "reads of an output buffer by sequence number", len(readers), 3)
+    chk.floor(rid, "reads of an output buffer by sequence number", len(readers), 3)
     for where, fi, e in readers:
         chk.used(fi.qualname)
         buf = e.args[0]
@@ -90,22 +84,22 @@ def run(chk: Check, model):
                 pred = conds[0].term
                 uses = [c for c in cv.run_supervisor.events if c.kind == "call" and any(e.term in set(T.walk(a)) for a in c.args) and c is not e and c.name != "jax.lax.cond"]
                 ok = bool(uses) and all(e.term not in set(T.walk(T.assume(a, pred, False))) for c in uses for a in c.args) and mentions(pred, "step")
-            chk.add("C08.map", f"reader: {where} (exception: no-op value under step == 0 only)", ok,
+            chk.add(rid, f"reader: {where} (exception: no-op value under step == 0 only)", ok,
                     "the unmapped read of the supervisor buffer must be reachable only through the cond(step == 0) skip branch", chk.loc(fi, e.node))
             continue
         seqt = got[2][0] if mapped else None
-        chk.add("C08.map", f"reader: {where}", mapped, f"{where} reads {T.show(buf)[:80]} at index {T.show(i)[:160]}, expected <seq> % get_buffer_size(<same buffer>) "
+        chk.add(rid, f"reader: {where}", mapped, f"{where} reads {T.show(buf)[:80]} at index {T.show(i)[:160]}, expected <seq> % get_buffer_size(<same buffer>) "
                 "like the writer", chk.loc(fi, e.node))
         if mapped and where == "_update_inputs":
             # buffer, window and producer are the same node: graph_state.buffer[c.output_node.name], timings_node.windows[c.output_node.name].seq
             key = buf[2] if buf[0] == "index" else None
             ok = key is not None and seqt == T.mk_attr(T.mk_index(S("timings_node.windows"), key), "seq") and key[0] == "attr" and key[2] == "name" \
                 and key[1][0] == "attr" and key[1][2] == "output_node"
-            chk.add("C08.map", "reader: window and buffer belong to the producer", ok, f"buffer key {T.show(key)[:80] if key else None} vs window seq {T.show(seqt)[:120]}", chk.loc(fi, e.node))
+            chk.add(rid, "reader: window and buffer belong to the producer", ok, f"buffer key {T.show(key)[:80] if key else None} vs window seq {T.show(seqt)[:120]}", chk.loc(fi, e.node))
         if mapped and where == "_run_generation":
             el = slot_elem(cv.run_generation)
             ok = el is not None and seqt == T.mk_attr(T.mk_index(el, T.ONE), "seq")
-            chk.add("C08.map", "reader: no-op output at the slot's own sequence number", ok, f"no-op read at {T.show(seqt)[:120]}", chk.loc(fi, e.node))
+            chk.add(rid, "reader: no-op output at the slot's own sequence number", ok, f"no-op read at {T.show(seqt)[:120]}", chk.loc(fi, e.node))
     # the values read become the window payload, in window order, together with that window's seq / ts_sent / ts_recv
     fo = [e for e in cv.update_inputs.events if e.kind == "call" and e.name == "rex.base.InputState.from_outputs"]
     f_ui = model.func("partition_runner.make_update_inputs._update_inputs")
@@ -118,10 +112,20 @@ def run(chk: Check, model):
             t = T.mk_index(S("timings_node.windows"), buf[2]) if buf[0] == "index" else None
         ok = t is not None and e.args[:3] == (T.mk_attr(t, "seq"), T.mk_attr(t, "ts_sent"), T.mk_attr(t, "ts_recv")) and len(e.args) == 4 and e.args[3] == rd[0].term \
             and dict(e.kwargs).get("is_data") == T.TRUE
-        chk.add("C08.map", "window assembled from the mapped reads", ok, f"InputState.from_outputs gets {[T.show(a)[:60] for a in e.args]}", chk.loc(f_ui, e.node))
+        chk.add(rid, "window assembled from the mapped reads", ok, f"InputState.from_outputs gets {[T.show(a)[:60] for a in e.args]}", chk.loc(f_ui, e.node))
     else:
-        chk.unknown("C08.map", "window assembled from the mapped reads", f"expected one InputState.from_outputs call, found {len(fo)}", chk.loc(f_ui))
+        chk.unknown(rid, "window assembled from the mapped reads", f"expected one InputState.from_outputs call, found {len(fo)}", chk.loc(f_ui))
 
+
+
+def run(chk: Check, model):
+    chk.rule("C08.map", "index-map agreement (A3): the writer update_output stores at seq % size(buffer); every read of an output buffer by sequence "
+                        "number applies the same map with the size of the same buffer; buffer, window and producer refer to the same node")
+    chk.rule("C08.writers", "who-may-write: output buffers are written only by update_output via replace_buffer, at the slot's own sequence number")
+    chk.rule("C08.sizes", "admissibility (A6): a user buffer size smaller than the computed minimum is rejected; the allocated size is "
+                          "max(sizes) + extra_padding (or max(1, extra_padding)); buffers are filled with the producer's init_output")
+    cv = CompiledView(model)
+    rule_map(chk, model, cv, "C08.map")
     # ---------------------------------------------------------------- writers (A1)
     sites = []
     for mod in ("partition_runner", "graph", "base", "rl", "utils"):
